@@ -254,6 +254,8 @@ for _pre in ["https://bc.marfeelcache.com/amp/", "http://bc.marfeel.com/", "bc.m
     for _tail in ["", "www.site.com/x", "bc.marfeel.com/final.org/p", "site.com/?u=/rel"]:
         CACHE_URLS.append(_pre + _tail)
 YOUTUBE_URLS = []
+CACHE_URLS += ["http://a.com/?url=http%3A%2F%2Fb.com%2Fout%3Fx%3D1%26amp%3Bnext%3Dhttp%253A%252F%252Fc.com", "http://a.com/?x=1&amp;url=http%3A%2F%2Fb.com%2F%3Fy%3D2%26amp%3Bu%3Dhttp%253A%252F%252Fc.org%252Fp",
+               "https://x.cdn.ampproject.org/c/s/b.com/out?x=1&amp;next=http%3A%2F%2Fc.com"]
 for _q in ["q=%2Fwatch%3Fv%3Dabc", "q=%2F%2Ftwitch.tv%2Fx", "next=/rel&q=x.org", "q=example.com%2Fx", "q=http%3A%2F%2Fexample.com", "q=", "v=abc&q=example.org", "event=video&q=%2Frel", "redir_token=x&q=https%3A%2F%2Fa.b%2F%3Fq%3Dinner",
            "q=youtube.com%2Fredirect%3Fq%3Dfinal.org", "q=www.youtube.com%2Fredirect%3Fq%3Dwww.youtube.com%2Fredirect%3Fq%3Dx.org"]:
     for _h in ["https://www.youtube.com/redirect?", "youtube.com/redirect?", "https://www.youtube.com/url?", "https://www.google.com/url?", "https://x.com/redirect/?",
